@@ -743,4 +743,71 @@ func runC20(c *Ctx) {
 	} else {
 		c.undecided("ANCHOR", "mstr.CompareNatural", 0, "not found")
 	}
+	ruleCmpChain(c)
+}
+
+// ruleCmpChain (R-CMP-CHAIN): CompareNatural and the helpers it reaches compare piecewise: "if this piece decides,
+// return its verdict, otherwise go on to the next piece".  Where the result c of a comparison call is returned
+// under a test of c itself, that test must let both signs through (c != 0); a one-sided test (c > 0, c < 0, c == 1)
+// sends the other sign on to a later piece, which then decides an order the earlier piece had already decided
+// the other way.
+func ruleCmpChain(c *Ctx) {
+	c.rule("R-CMP-CHAIN", 1, "in CompareNatural's scope a comparison result returned under a test of itself is returned for both signs (c != 0)")
+	fn := c.P.Func("mstr", "", "CompareNatural")
+	if fn == nil {
+		return
+	}
+	// the scope: what CompareNatural calls, and the package functions it uses as values (a comparison chosen
+	// among named functions)
+	scope := append([]*ssa.Function{}, buildCallScope(fn).fns...)
+	inScope := map[*ssa.Function]bool{}
+	for _, f := range scope {
+		inScope[f] = true
+	}
+	for i := 0; i < len(scope) && i < 64; i++ {
+		allInstrs(scope[i], func(in ssa.Instruction) {
+			for _, op := range in.Operands(nil) {
+				if op == nil || *op == nil {
+					continue
+				}
+				if g, ok := (*op).(*ssa.Function); ok && g.Pkg == fn.Pkg && g.Blocks != nil && !inScope[g] {
+					inScope[g] = true
+					scope = append(scope, g)
+				}
+			}
+		})
+	}
+	for _, f := range scope {
+		if f.Pkg != fn.Pkg || f.Signature.Results().Len() != 1 || !isIntType(f.Signature.Results().At(0).Type()) {
+			continue
+		}
+		f := f
+		n := 0
+		allInstrs(f, func(in ssa.Instruction) {
+			ret, ok := in.(*ssa.Return)
+			if !ok || len(ret.Results) != 1 {
+				return
+			}
+			call, ok := ret.Results[0].(*ssa.Call)
+			if !ok || !isIntType(call.Type()) {
+				return
+			}
+			for _, cm := range cmpsAt(ret.Block()) {
+				x, y, op := cm.X, cm.Y, cm.Op
+				if y == ssa.Value(call) {
+					x, y, op = y, x, flipOp(op)
+				}
+				if x != ssa.Value(call) {
+					continue
+				}
+				k, isK := constInt(y)
+				if !isK {
+					continue
+				}
+				n++
+				c.sawFn(fnName(f))
+				c.judge(op == token.NEQ && k == 0, "R-CMP-CHAIN", fmt.Sprintf("%s:verdict of %s #%d", fnName(f), ksym(call), n), ret.Pos(), "returned whenever it is not 0", fmt.Sprintf("the verdict of %s is returned only when it is %s %d: the other sign is passed on to the next comparison, which can contradict it (the order is no longer consistent)", ksym(call), op, k))
+			}
+		})
+	}
 }
